@@ -1,7 +1,563 @@
-// Engine for the outstation session; filled in by a later step.
-use super::Script;
+// Engine `outstation`: the real OutstationTask (session + database) over the mock transport, driven
+// by a script of application fragments, clock advances, database updates and disconnects.
+//
+// Every observable effect is recorded in ONE ordered, time-stamped trace (hook H5,
+// crate::util::verif_trace): fragments handed to the transport writer (`tx`), the session's calls
+// into the database (`db ...`, each followed by a line `> ...` with what the database answered),
+// and the callbacks received by the scripted ControlHandler / OutstationApplication /
+// OutstationInformation of this file (`cb ...`, `info ...`).  Lines starting with `>` are the
+// answers of the session's environment; they (and the `> digest` of each received fragment, made
+// with the real parser) are the oracle inputs of the session model, everything else is predicted by
+// the model and compared.
+
+use super::{decode_level, hex, unhex, Script};
+use crate::app::attr::Attribute;
+use crate::app::control::*;
+use crate::app::gen::all::AllObjectsVariation;
+use crate::app::gen::count::CountVariation;
+use crate::app::gen::prefixed::PrefixedVariation;
+use crate::app::gen::ranged::RangedVariation;
+use crate::app::measurement::*;
+use crate::app::parse::options::ParseOptions;
+use crate::app::parse::parser::{HeaderDetails, ParsedFragment};
+use crate::app::parse::traits::FixedSizeVariation;
+use crate::app::*;
+use crate::link::header::{BroadcastConfirmMode, FrameInfo, FrameType};
+use crate::link::reader::LinkModes;
+use crate::link::EndpointAddress;
+
+use crate::outstation::database::*;
+use crate::outstation::task::OutstationTask;
+use crate::outstation::*;
+use crate::transport::mock::reader::verif_hook;
+use crate::util::phys::{PhysAddr, PhysLayer};
+use crate::util::session::Enabled;
+use crate::util::verif_trace as vt;
+use std::sync::{Arc, Mutex};
+use std::time::Duration;
+
+#[derive(Clone)]
+struct Knobs {
+    select_status: u8,
+    operate_status: u8,
+    app_iin: u8,
+    delay_ms: u16,
+    cold: Option<RestartDelay>,
+    warm: Option<RestartDelay>,
+    wtime: u8,  // 0 ok, 1 not supported, 2 parameter error
+    freeze: u8, // same
+}
+
+type Shared = Arc<Mutex<Knobs>>;
+
+fn obj_hex<T: FixedSizeVariation>(v: &T) -> String {
+    let mut buf = [0u8; 64];
+    let mut cursor = scursor::WriteCursor::new(&mut buf);
+    v.write(&mut cursor).unwrap();
+    hex(cursor.written())
+}
+
+struct Handler(Shared);
+
+fn op_text(t: OperateType) -> &'static str {
+    match t {
+        OperateType::SelectBeforeOperate => "sbo",
+        OperateType::DirectOperate => "do",
+        OperateType::DirectOperateNoAck => "donr",
+    }
+}
+
+macro_rules! control_support {
+    ($t:ty, $name:expr) => {
+        impl ControlSupport<$t> for Handler {
+            fn select(&mut self, control: $t, index: u16, _db: &mut DatabaseHandle) -> CommandStatus {
+                let st = self.0.lock().unwrap().select_status;
+                vt::log(format!("cb select {} {} {}", $name, index, obj_hex(&control)));
+                CommandStatus::from(st)
+            }
+            fn operate(
+                &mut self,
+                control: $t,
+                index: u16,
+                op_type: OperateType,
+                _db: &mut DatabaseHandle,
+            ) -> CommandStatus {
+                let st = self.0.lock().unwrap().operate_status;
+                vt::log(format!(
+                    "cb operate {} {} {} {}",
+                    $name,
+                    index,
+                    op_text(op_type),
+                    obj_hex(&control)
+                ));
+                CommandStatus::from(st)
+            }
+        }
+    };
+}
+
+control_support!(Group12Var1, "g12v1");
+control_support!(Group41Var1, "g41v1");
+control_support!(Group41Var2, "g41v2");
+control_support!(Group41Var3, "g41v3");
+control_support!(Group41Var4, "g41v4");
+
+impl ControlHandler for Handler {
+    fn begin_fragment(&mut self) {
+        vt::log("cb begin_fragment".to_string());
+    }
+    fn end_fragment(&mut self, _database: &mut DatabaseHandle) -> MaybeAsync<()> {
+        vt::log("cb end_fragment".to_string());
+        MaybeAsync::ready(())
+    }
+}
+
+struct App(Shared);
+
+fn req_result(code: u8) -> Result<(), RequestError> {
+    match code {
+        0 => Ok(()),
+        1 => Err(RequestError::NotSupported),
+        _ => Err(RequestError::ParameterError),
+    }
+}
+
+impl OutstationApplication for App {
+    fn get_processing_delay_ms(&self) -> u16 {
+        self.0.lock().unwrap().delay_ms
+    }
+    fn write_absolute_time(&mut self, time: Timestamp) -> Result<(), RequestError> {
+        vt::log(format!("cb write_time {}", time.raw_value()));
+        req_result(self.0.lock().unwrap().wtime)
+    }
+    fn get_application_iin(&self) -> ApplicationIin {
+        let b = self.0.lock().unwrap().app_iin;
+        ApplicationIin {
+            need_time: b & 1 != 0,
+            local_control: b & 2 != 0,
+            device_trouble: b & 4 != 0,
+            config_corrupt: b & 8 != 0,
+        }
+    }
+    fn cold_restart(&mut self) -> Option<RestartDelay> {
+        vt::log("cb cold_restart".to_string());
+        self.0.lock().unwrap().cold
+    }
+    fn warm_restart(&mut self) -> Option<RestartDelay> {
+        vt::log("cb warm_restart".to_string());
+        self.0.lock().unwrap().warm
+    }
+    fn freeze_counter(
+        &mut self,
+        indices: FreezeIndices,
+        freeze_type: FreezeType,
+        _database: &mut DatabaseHandle,
+    ) -> Result<(), RequestError> {
+        let i = match indices {
+            FreezeIndices::All => "all".to_string(),
+            FreezeIndices::Range(a, b) => format!("{}:{}", a, b),
+        };
+        let t = match freeze_type {
+            FreezeType::ImmediateFreeze => "imm".to_string(),
+            FreezeType::FreezeAndClear => "clear".to_string(),
+            FreezeType::FreezeAtTime(x) => {
+                let (t, i) = x.get_time_and_interval();
+                format!("at:{}:{}", t.raw_value(), i)
+            }
+        };
+        vt::log(format!("cb freeze {} {}", i, t));
+        req_result(self.0.lock().unwrap().freeze)
+    }
+    fn write_device_attr(&mut self, _attr: Attribute) -> MaybeAsync<bool> {
+        vt::log("cb write_attr".to_string());
+        MaybeAsync::ready(true)
+    }
+    fn begin_confirm(&mut self) {
+        vt::log("cb begin_confirm".to_string());
+    }
+    fn event_cleared(&mut self, id: u64) {
+        vt::log(format!("cb event_cleared {}", id));
+    }
+    fn end_confirm(&mut self, state: BufferState) -> MaybeAsync<()> {
+        vt::log(format!(
+            "cb end_confirm {} {} {}",
+            state.classes.num_class_1, state.classes.num_class_2, state.classes.num_class_3
+        ));
+        MaybeAsync::ready(())
+    }
+}
+
+struct Info;
+
+impl OutstationInformation for Info {
+    fn process_request_from_idle(&mut self, header: RequestHeader) {
+        vt::log(format!(
+            "info idle_request {} {}",
+            header.function.as_u8(),
+            header.control.seq.value()
+        ));
+    }
+    fn broadcast_received(&mut self, function: FunctionCode, action: BroadcastAction) {
+        let a = match action {
+            BroadcastAction::Processed => "processed".to_string(),
+            BroadcastAction::IgnoredByConfiguration => "ignored".to_string(),
+            BroadcastAction::BadObjectHeaders => "badobj".to_string(),
+            BroadcastAction::UnsupportedFunction(f) => format!("unsupported:{}", f.as_u8()),
+        };
+        vt::log(format!("info broadcast {} {}", function.as_u8(), a));
+    }
+    fn enter_solicited_confirm_wait(&mut self, ecsn: Sequence) {
+        vt::log(format!("info enter_sol_wait {}", ecsn.value()));
+    }
+    fn solicited_confirm_timeout(&mut self, ecsn: Sequence) {
+        vt::log(format!("info sol_timeout {}", ecsn.value()));
+    }
+    fn solicited_confirm_received(&mut self, ecsn: Sequence) {
+        vt::log(format!("info sol_confirmed {}", ecsn.value()));
+    }
+    fn solicited_confirm_wait_new_request(&mut self) {
+        vt::log("info sol_new_request".to_string());
+    }
+    fn wrong_solicited_confirm_seq(&mut self, ecsn: Sequence, seq: Sequence) {
+        vt::log(format!("info sol_wrong_seq {} {}", ecsn.value(), seq.value()));
+    }
+    fn unexpected_confirm(&mut self, unsolicited: bool, seq: Sequence) {
+        vt::log(format!("info unexpected_confirm {} {}", unsolicited as u8, seq.value()));
+    }
+    fn enter_unsolicited_confirm_wait(&mut self, ecsn: Sequence) {
+        vt::log(format!("info enter_unsol_wait {}", ecsn.value()));
+    }
+    fn unsolicited_confirm_timeout(&mut self, ecsn: Sequence, retry: bool) {
+        vt::log(format!("info unsol_timeout {} {}", ecsn.value(), retry as u8));
+    }
+    fn unsolicited_confirmed(&mut self, ecsn: Sequence) {
+        vt::log(format!("info unsol_confirmed {}", ecsn.value()));
+    }
+    fn clear_restart_iin(&mut self) {
+        vt::log("info clear_restart_iin".to_string());
+    }
+}
+
+fn bcast(s: &str) -> Option<BroadcastConfirmMode> {
+    match s {
+        "none" => None,
+        "opt" => Some(BroadcastConfirmMode::Optional),
+        "mand" => Some(BroadcastConfirmMode::Mandatory),
+        "notreq" => Some(BroadcastConfirmMode::NotRequired),
+        x => panic!("bad broadcast mode {}", x),
+    }
+}
+
+fn restart_delay(s: &str) -> Option<RestartDelay> {
+    if s == "none" {
+        return None;
+    }
+    let (k, v) = s.split_once(':').expect("bad restart delay");
+    let v = v.parse::<u16>().unwrap();
+    match k {
+        "s" => Some(RestartDelay::Seconds(v)),
+        "ms" => Some(RestartDelay::Milliseconds(v)),
+        _ => panic!("bad restart delay"),
+    }
+}
+
+fn feature(script: &Script, key: &str, default: u64) -> Feature {
+    if script.cfg_u64(key, default) != 0 {
+        Feature::Enabled
+    } else {
+        Feature::Disabled
+    }
+}
+
+fn class_of(s: &str) -> Option<EventClass> {
+    match s {
+        "0" => None,
+        "1" => Some(EventClass::Class1),
+        "2" => Some(EventClass::Class2),
+        "3" => Some(EventClass::Class3),
+        x => panic!("bad class {}", x),
+    }
+}
+
+/// what the session will learn about a received fragment from the real parser
+fn digest(bytes: &[u8]) -> String {
+    let parsed = match ParsedFragment::parse(ParseOptions::get_static(), bytes) {
+        Err(HeaderParseError::InsufficientBytes) => return "hp=insuf".to_string(),
+        Err(HeaderParseError::UnknownFunction(seq, code)) => {
+            return format!("hp=unkfn:{}:{}", seq.value(), code)
+        }
+        Ok(x) => x,
+    };
+    let mut out = format!("hp=ok ctl={} fn={}", bytes[0], parsed.function.as_u8());
+    let rv = match parsed.to_request() {
+        Ok(_) => "ok",
+        Err(RequestValidationError::UnexpectedFunction(_)) => "unexpfn",
+        Err(RequestValidationError::NonFirFin) => "nonfirfin",
+        Err(RequestValidationError::UnexpectedUnsBit(_)) => "unexpuns",
+    };
+    out.push_str(&format!(" rv={}", rv));
+    match parsed.objects {
+        Err(err) => {
+            let iin2: Iin2 = err.into();
+            out.push_str(&format!(" obj=err:{}", iin2.value));
+        }
+        Ok(headers) => {
+            out.push_str(" obj=ok");
+            let mut rh = String::new();
+            for h in headers.iter() {
+                rh.push(if crate::outstation::database::read::ReadHeader::get(&h).is_some() {
+                    '1'
+                } else {
+                    '0'
+                });
+                let tok = match h.details {
+                    HeaderDetails::OneByteStartStop(_, _, RangedVariation::Group80Var1(bits)) => {
+                        let items: Vec<String> = bits
+                            .iter()
+                            .map(|(v, i)| format!("{}={}", i, v as u8))
+                            .collect();
+                        format!("iin:{}", if items.is_empty() { "-".to_string() } else { items.join(",") })
+                    }
+                    HeaderDetails::OneByteCount(_, CountVariation::Group50Var1(seq)) => match seq.single() {
+                        Some(v) => format!("abstime:{}", v.time.raw_value()),
+                        None => "abstime:none".to_string(),
+                    },
+                    HeaderDetails::OneByteCount(_, CountVariation::Group50Var3(seq)) => match seq.single() {
+                        Some(v) => format!("lrtime:{}", v.time.raw_value()),
+                        None => "lrtime:none".to_string(),
+                    },
+                    HeaderDetails::AllObjects(AllObjectsVariation::Group60Var2) => "cls:1".to_string(),
+                    HeaderDetails::AllObjects(AllObjectsVariation::Group60Var3) => "cls:2".to_string(),
+                    HeaderDetails::AllObjects(AllObjectsVariation::Group60Var4) => "cls:3".to_string(),
+                    HeaderDetails::AllObjects(AllObjectsVariation::Group20Var0) => "frz:all".to_string(),
+                    HeaderDetails::OneByteStartStop(a, b, RangedVariation::Group20Var0) => format!("frz:{}:{}", a, b),
+                    HeaderDetails::TwoByteStartStop(a, b, RangedVariation::Group20Var0) => format!("frz:{}:{}", a, b),
+                    HeaderDetails::OneByteCount(_, CountVariation::Group50Var2(seq)) => match seq.single() {
+                        Some(v) => format!("ft:{}:{}", v.time.raw_value(), v.interval),
+                        None => "ft:none".to_string(),
+                    },
+                    HeaderDetails::TwoByteCount(_, CountVariation::Group50Var2(seq)) => match seq.single() {
+                        Some(v) => format!("ft:{}:{}", v.time.raw_value(), v.interval),
+                        None => "ft:none".to_string(),
+                    },
+                    HeaderDetails::OneByteStartStop(_, _, RangedVariation::Group0(_, Some(_))) => "attr".to_string(),
+                    HeaderDetails::TwoByteStartStop(_, _, RangedVariation::Group0(_, Some(_))) => "attr".to_string(),
+                    HeaderDetails::OneByteCountAndPrefix(_, PrefixedVariation::Group34Var1(_))
+                    | HeaderDetails::OneByteCountAndPrefix(_, PrefixedVariation::Group34Var2(_))
+                    | HeaderDetails::OneByteCountAndPrefix(_, PrefixedVariation::Group34Var3(_))
+                    | HeaderDetails::TwoByteCountAndPrefix(_, PrefixedVariation::Group34Var1(_))
+                    | HeaderDetails::TwoByteCountAndPrefix(_, PrefixedVariation::Group34Var2(_))
+                    | HeaderDetails::TwoByteCountAndPrefix(_, PrefixedVariation::Group34Var3(_)) => "db34".to_string(),
+                    _ => match h.to_control_header() {
+                        Ok(_) => control_token(&h.details),
+                        Err(_) => "other".to_string(),
+                    },
+                };
+                out.push_str(" H");
+                out.push_str(&tok);
+            }
+            out.push_str(&format!(" rh={}", if rh.is_empty() { "-".to_string() } else { rh }));
+        }
+    }
+    out
+}
+
+fn items<I, V>(seq: &crate::app::parse::count::CountSequence<crate::app::parse::prefix::Prefix<I, V>>) -> String
+where
+    I: crate::app::parse::traits::Index,
+    V: FixedSizeVariation,
+{
+    let v: Vec<String> = seq
+        .iter()
+        .map(|x| format!("{}={}", x.index.widen_to_u16(), obj_hex(&x.value)))
+        .collect();
+    if v.is_empty() {
+        "-".to_string()
+    } else {
+        v.join(",")
+    }
+}
+
+fn control_token(d: &HeaderDetails) -> String {
+    match d {
+        HeaderDetails::OneByteCountAndPrefix(_, PrefixedVariation::Group12Var1(s)) => format!("ctl:12:1:1:{}", items(s)),
+        HeaderDetails::OneByteCountAndPrefix(_, PrefixedVariation::Group41Var1(s)) => format!("ctl:41:1:1:{}", items(s)),
+        HeaderDetails::OneByteCountAndPrefix(_, PrefixedVariation::Group41Var2(s)) => format!("ctl:41:2:1:{}", items(s)),
+        HeaderDetails::OneByteCountAndPrefix(_, PrefixedVariation::Group41Var3(s)) => format!("ctl:41:3:1:{}", items(s)),
+        HeaderDetails::OneByteCountAndPrefix(_, PrefixedVariation::Group41Var4(s)) => format!("ctl:41:4:1:{}", items(s)),
+        HeaderDetails::TwoByteCountAndPrefix(_, PrefixedVariation::Group12Var1(s)) => format!("ctl:12:1:2:{}", items(s)),
+        HeaderDetails::TwoByteCountAndPrefix(_, PrefixedVariation::Group41Var1(s)) => format!("ctl:41:1:2:{}", items(s)),
+        HeaderDetails::TwoByteCountAndPrefix(_, PrefixedVariation::Group41Var2(s)) => format!("ctl:41:2:2:{}", items(s)),
+        HeaderDetails::TwoByteCountAndPrefix(_, PrefixedVariation::Group41Var3(s)) => format!("ctl:41:3:2:{}", items(s)),
+        HeaderDetails::TwoByteCountAndPrefix(_, PrefixedVariation::Group41Var4(s)) => format!("ctl:41:4:2:{}", items(s)),
+        _ => "other".to_string(),
+    }
+}
+
+fn flush(obs: &mut Vec<String>) {
+    for l in vt::drain() {
+        obs.push(l);
+    }
+}
+
+async fn settle() {
+    tokio::time::sleep(Duration::from_millis(1)).await;
+}
 
 pub(crate) async fn run_outstation(script: &Script, obs: &mut Vec<String>) {
-    let _ = script;
-    obs.push("unimplemented".to_string());
+    let master = script.cfg_u64("master", 1) as u16;
+    let mut config = OutstationConfig::new(
+        EndpointAddress::raw(script.cfg_u64("addr", 1024) as u16),
+        EndpointAddress::raw(master),
+        EventBufferConfig::all_types(script.cfg_u64("evbuf", 5) as u16),
+    );
+    config.decode_level = decode_level(script);
+    config.solicited_buffer_size = BufferSize::new(script.cfg_u64("soltx", 2048) as usize).unwrap();
+    config.unsolicited_buffer_size = BufferSize::new(script.cfg_u64("unsoltx", 2048) as usize).unwrap();
+    config.rx_buffer_size = BufferSize::new(script.cfg_u64("rx", 2048) as usize).unwrap();
+    config.confirm_timeout = Timeout::from_millis(script.cfg_u64("confirm_ms", 5000)).unwrap();
+    config.select_timeout = Timeout::from_millis(script.cfg_u64("select_ms", 5000)).unwrap();
+    config.features.unsolicited = feature(script, "unsol", 0);
+    config.features.broadcast = feature(script, "broadcast", 1);
+    config.features.respond_to_any_master = feature(script, "anymaster", 0);
+    config.max_unsolicited_retries = match script.cfg_str("retries", "none").as_str() {
+        "none" => None,
+        x => Some(x.parse::<usize>().unwrap()),
+    };
+    config.unsolicited_retry_delay = Duration::from_millis(script.cfg_u64("retry_delay_ms", 5000));
+    config.keep_alive_timeout = match script.cfg_u64("keepalive_ms", 0) {
+        0 => None,
+        x => Some(Duration::from_millis(x)),
+    };
+    config.max_controls_per_request = match script.cfg_u64("maxctl", 0) {
+        0 => None,
+        x => Some(x as u16),
+    };
+
+    let knobs: Shared = Arc::new(Mutex::new(Knobs {
+        select_status: script.cfg_u64("sel", 0) as u8,
+        operate_status: script.cfg_u64("op", 0) as u8,
+        app_iin: script.cfg_u64("appiin", 0) as u8,
+        delay_ms: script.cfg_u64("delay", 0) as u16,
+        cold: restart_delay(&script.cfg_str("cold", "none")),
+        warm: restart_delay(&script.cfg_str("warm", "none")),
+        wtime: script.cfg_u64("wtime", 0) as u8,
+        freeze: script.cfg_u64("freeze", 1) as u8,
+    }));
+
+    let (task, mut handle) = OutstationTask::create(
+        Enabled::Yes,
+        LinkModes::test(),
+        ParseOptions::get_static(),
+        config,
+        PhysAddr::None,
+        Box::new(App(knobs.clone())),
+        Box::new(Info),
+        Box::new(Handler(knobs.clone())),
+    );
+    let mut task = Box::new(task);
+    task.get_reader()
+        .get_inner()
+        .set_rx_frame_info(FrameInfo::new(
+            EndpointAddress::raw(master),
+            None,
+            FrameType::Data,
+            PhysAddr::None,
+        ));
+    verif_hook::clear();
+
+    // the task owns its io; a new mock is created for every session and its handle passed back
+    let (io_tx, mut io_rx) = tokio::sync::mpsc::unbounded_channel::<sfio_tokio_mock_io::Handle>();
+    let runner = tokio::task::spawn_local(async move {
+        loop {
+            let (mock, h) = sfio_tokio_mock_io::mock();
+            if io_tx.send(h).is_err() {
+                return;
+            }
+            let mut io = PhysLayer::Mock(mock);
+            let err = task.run(&mut io).await;
+            vt::log(format!("session-end {:?}", err).replace(' ', "_"));
+            // consume anything still queued so that dropping the mock does not panic
+            if let PhysLayer::Mock(_) = io {
+                std::mem::forget(io);
+            }
+            match err {
+                crate::util::session::RunError::Stop(_) => return,
+                crate::util::session::RunError::Link(_) => {}
+            }
+        }
+    });
+
+    vt::start();
+    let mut io = io_rx.recv().await.unwrap();
+
+    for op in &script.ops {
+        vt::log(format!("op {}", op.join(" ")));
+        match op[0].as_str() {
+            "rx" => {
+                let from = EndpointAddress::raw(op[1].parse::<u16>().unwrap());
+                let bytes = unhex(&op[3]);
+                vt::log(format!("> digest {}", digest(&bytes)));
+                verif_hook::push_frame_info(FrameInfo::new(from, bcast(&op[2]), FrameType::Data, PhysAddr::None));
+                io.read(&bytes);
+                settle().await;
+            }
+            "sleep" => {
+                tokio::time::sleep(Duration::from_millis(op[1].parse::<u64>().unwrap())).await;
+            }
+            "add" => {
+                let index = op[2].parse::<u16>().unwrap();
+                let class = class_of(&op[3]);
+                let ok = handle.transaction(|db| match op[1].as_str() {
+                    "binary" => db.add(index, class, BinaryInputConfig::default()),
+                    "double" => db.add(index, class, DoubleBitBinaryInputConfig::default()),
+                    "bos" => db.add(index, class, BinaryOutputStatusConfig::default()),
+                    "counter" => db.add(index, class, CounterConfig::default()),
+                    "frozen" => db.add(index, class, FrozenCounterConfig::default()),
+                    "analog" => db.add(index, class, AnalogInputConfig::default()),
+                    "aos" => db.add(index, class, AnalogOutputStatusConfig::default()),
+                    "octet" => db.add(index, class, OctetStringConfig),
+                    x => panic!("bad type {}", x),
+                });
+                vt::log(format!("> added {}", ok as u8));
+                settle().await;
+            }
+            "update" => {
+                let index = op[2].parse::<u16>().unwrap();
+                let flags = Flags::new(op[4].parse::<u8>().unwrap());
+                let time = Time::Synchronized(Timestamp::new(op[5].parse::<u64>().unwrap()));
+                let opts = UpdateOptions::detect_event();
+                let ok = handle.transaction(|db| match op[1].as_str() {
+                    "binary" => db.update(index, &BinaryInput::new(op[3] != "0", flags, time), opts),
+                    "counter" => db.update(index, &Counter::new(op[3].parse::<u32>().unwrap(), flags, time), opts),
+                    "analog" => db.update(index, &AnalogInput::new(op[3].parse::<f64>().unwrap(), flags, time), opts),
+                    "octet" => db.update(index, &OctetString::new(&unhex(&op[3])).unwrap(), opts),
+                    x => panic!("bad type {}", x),
+                });
+                vt::log(format!("> updated {}", ok as u8));
+                settle().await;
+            }
+            "handler" => {
+                let mut k = knobs.lock().unwrap();
+                k.select_status = op[1].parse::<u8>().unwrap();
+                k.operate_status = op[2].parse::<u8>().unwrap();
+            }
+            "appiin" => {
+                knobs.lock().unwrap().app_iin = op[1].parse::<u8>().unwrap();
+            }
+            "disconnect" => {
+                io.read_error(std::io::ErrorKind::ConnectionReset);
+                settle().await;
+                io = io_rx.recv().await.unwrap();
+            }
+            x => panic!("bad op {}", x),
+        }
+        flush(obs);
+    }
+    vt::log("end".to_string());
+    flush(obs);
+    vt::stop();
+    runner.abort();
+    let _ = runner.await;
+    std::mem::forget(io);
 }
